@@ -95,6 +95,9 @@ func (Prop) Run(c *engine.Ctx) {
 		if !quick {
 			max, budget = 400000, 25*time.Minute
 		}
+		if strings.Contains(sc.name, "independent-objects") {
+			continue // no yields exploration: see above
+		}
 		c.Case(fmt.Sprintf("%s/yields/bound=%d", sc.name, yb), func(t *engine.T) {
 			runScenario(t, sc, true, yb, max, budget)
 		})
